@@ -1762,3 +1762,16 @@ pub mod vhook {
         a.factors_idx.to_vec()
     }
 }
+
+/// Verification accessor (cfg(yamaquasi_verif) only): the private per-polynomial sieve, so that the first
+/// unit of work (one polynomial = all blocks of its interval) can be run on its own at sizes where a whole
+/// A value (2^(nfacs-1) polynomials) cannot finish.  Returns the number of relations collected.
+#[cfg(yamaquasi_verif)]
+pub mod vhook_flow {
+    use super::*;
+
+    pub fn sieve_poly(s: &SieveSIQS, a: &A, pol: &Poly) -> usize {
+        let _ = siqs_sieve_poly(s, a, pol, None);
+        s.rels.read().unwrap().len()
+    }
+}
